@@ -116,9 +116,10 @@ impl PayloadBuffer {
             }
         }
 
-        if appended {
-            cx.waker().wake_by_ref();
-        }
+        // The per-poll chunk budget is used up while the stream was still ready, so the stream has
+        // not registered our waker: schedule the next poll ourselves, whether or not any of the
+        // chunks carried data (they may all have been empty).
+        cx.waker().wake_by_ref();
 
         Ok(())
     }
